@@ -34,7 +34,8 @@ CONSTANTS Tables,       \* user table names
           FixDeleteLSN, \* TRUE: a delete takes a fresh LSN (repaired code)
           FixReplayLSN, \* TRUE: replay never moves the LSN counter backwards (repaired code)
           FixReplayRoot, \* TRUE: replay of an insert that moves its table's root updates the catalog itself (repaired code)
-          FixReplayKey  \* TRUE: replay raises the key counter to every logged key (repaired code: the header may be older than the pages)
+          FixReplayKey, \* TRUE: replay raises the key counter to every logged key (repaired code: the header may be older than the pages)
+          FixStmtAtomic \* TRUE: INSERT / UPDATE check every row before the first is applied (repaired code); FALSE: rows before the failing one stay applied
 
 VARIABLES disk, dhdr, cache, mhdr, walD, torn, walU, pc,
           abs, pend, cands, taint, scope,
@@ -269,11 +270,13 @@ DoStmt(t, ops, prefs, fails) ==
 
 InsertStmt(t, rows) ==
   DoStmt(t, [i \in 1..Len(rows) |-> [op |-> "ins", t |-> t, key |-> 0, v |-> rows[i]]],
-         IF t \in DOMAIN abs THEN InsPrefixes(abs, t, rows) ELSE <<>>, FALSE)
+         IF t \in DOMAIN abs THEN InsPrefixes(abs, t, rows) ELSE <<>>,
+         FixStmtAtomic /\ \E i \in 1..Len(rows) : rows[i] < 0)
 UpdateStmt(t, w, v) ==
   LET keys == KeysWhere(CurS, disk, t, w) IN
   DoStmt(t, [i \in 1..Len(keys) |-> [op |-> "upd", t |-> t, key |-> keys[i], v |-> v]],
-         IF t \in DOMAIN abs THEN UpdPrefixes(abs, t, w, v) ELSE <<>>, WhereFails(ValsOf(CurS, disk, t), w))
+         IF t \in DOMAIN abs THEN UpdPrefixes(abs, t, w, v) ELSE <<>>,
+         WhereFails(ValsOf(CurS, disk, t), w) \/ (FixStmtAtomic /\ v < 0 /\ keys # <<>>))
 DeleteStmt(t, w) ==
   LET keys == KeysWhere(CurS, disk, t, w) IN
   DoStmt(t, [i \in 1..Len(keys) |-> [op |-> "del", t |-> t, key |-> keys[i], v |-> 0]],
